@@ -154,7 +154,7 @@ impl PosOracle for C17 {
 pub const RULE: &str = "every state and every transition of the bounded trees, families and children, judged differentially: the colour mirror (swap colours, flip ranks, swap side to move and castling rights, keep the en-passant file) and, for positions without castling rights, the left-right mirror are built from scratch through the builder; legal move sets, status, checkers and pinned sets must be mirror images; for every legal move the successor of the mirror under the mirrored move must equal the mirrored successor in every observable (hash excluded: Zobrist keys are not symmetric). distinct_nontrivial = judged states with pawns, castling rights or en-passant state (where colour- or file-specific code is involved)";
 
 pub fn run(tier: Tier) -> i32 {
-    let (run, _) = run_e1("C17", tier, COUNTERS, C17, with_ep_slider_positions(standard_plan(tier, 1), tier), RULE, &["differential oracle: a defect that is itself mirror-symmetric is invisible here (it is the business of C01-C04)"]);
+    let (run, _) = run_e1("C17", tier, COUNTERS, C17, with_line_geometry(with_ep_slider_positions(standard_plan(tier, 1), tier), true, tier.pick(0, 1)), RULE, &["differential oracle: a defect that is itself mirror-symmetric is invisible here (it is the business of C01-C04)"]);
     finish(&run, RULE)
 }
 pub fn replay(case: &Value) -> i32 {
